@@ -221,6 +221,31 @@ inline bool run_sharded(int nshards, std::function<void(int, int, Result &)> fn,
     waitpid(w.pid, &st, 0);
     bool complete = w.buf.size() >= 4 && w.buf.compare(w.buf.size() - 4, 4, "END\n") == 0;
     if (!WIFEXITED(st) || WEXITSTATUS(st) != 0 || !complete) {
+      // A worker killed by a fault signal, or ended by the sanitizer (exit code 1), is the LIBRARY failing in one of the
+      // worker's cases: the harness code is the same as on the tree where all workers end normally.  That is a verdict
+      // (violation), not a harness failure; the case is located by re-running with --jobs 1.  Anything else (exit code 2
+      // = the harness's own check, SIGKILL/SIGTERM = resource limits or an operator) stays a harness error.
+      int sig = WIFSIGNALED(st) ? WTERMSIG(st) : 0;
+      bool fault = (sig == SIGSEGV || sig == SIGFPE || sig == SIGABRT || sig == SIGBUS || sig == SIGILL);
+      bool sanitizer = WIFEXITED(st) && WEXITSTATUS(st) == 1;
+      // exit code 3: the worker stopped because the library refused a configuration, or failed a step, that the harness
+      // uses as a known-good input (message on stderr)
+      bool refused = WIFEXITED(st) && WEXITSTATUS(st) == 3;
+      if (refused) {
+        size_t shard = (size_t) (&w - &ws[0]);
+        total.violation("library-refused-a-known-good-configuration-or-step",
+                        "{\"shard\":" + std::to_string(shard) + ",\"of\":" + std::to_string(ws.size()) + ",\"message\":\"see the line starting with HARNESS-ERROR on stderr\"}");
+        total.count("workers_lost");
+        continue;
+      }
+      if (fault || sanitizer) {
+        size_t shard = (size_t) (&w - &ws[0]);
+        total.violation(std::string("library-crash-in-a-worker:") + (fault ? "signal-" + std::to_string(sig) : std::string("sanitizer-report")),
+                        "{\"shard\":" + std::to_string(shard) + ",\"of\":" + std::to_string(ws.size()) + ",\"wait_status\":" + std::to_string(st) +
+                        ",\"how_to_locate\":\"re-run the part with --jobs 1 (the report of the sanitizer, if any, is on stderr)\"}");
+        total.count("workers_lost");
+        continue;
+      }
       fprintf(stderr, "HARNESS-ERROR: worker %d ended abnormally (status %d, complete %d)\n",
               (int) w.pid, st, (int) complete);
       ok = false;
@@ -284,6 +309,7 @@ inline void write_result(std::string const &path, std::string const &property, s
 {
   FILE *f = fopen(path.c_str(), "w");
   if (!f) { perror(path.c_str()); exit(2); }
+  if (r.counters.count("workers_lost")) exhaustive = false;  // the cases of a lost worker were not all run
   fprintf(f, "{\n \"property_id\": \"%s\",\n \"tier\": \"%s\",\n \"exhaustive\": %s,\n", property.c_str(),
           tier.c_str(), exhaustive ? "true" : "false");
   fprintf(f, " \"counters\": {");
@@ -301,13 +327,13 @@ inline void write_result(std::string const &path, std::string const &property, s
   fprintf(f, "},\n \"violation_counts\": {");
   first = true;
   for (auto &kv : r.viol_count) {
-    fprintf(f, "%s\"%s\": %ld", first ? "" : ", ", jesc(kv.first).c_str(), kv.second);
+    fprintf(f, "%s\"%s\": %ld", first ? "" : ", ", jesc(kv.first.rfind("library-", 0) == 0 ? property + ":" + kv.first : kv.first).c_str(), kv.second);
     first = false;
   }
   fprintf(f, "},\n \"violations\": [");
   first = true;
   for (auto &v : r.violations) {
-    fprintf(f, "%s\n  {\"sig\": \"%s\", \"detail\": %s}", first ? "" : ",", jesc(v.sig).c_str(),
+    fprintf(f, "%s\n  {\"sig\": \"%s\", \"detail\": %s}", first ? "" : ",", jesc(v.sig.rfind("library-", 0) == 0 ? property + ":" + v.sig : v.sig).c_str(),
             v.detail.size() ? v.detail.c_str() : "{}");
     first = false;
   }
